@@ -152,7 +152,7 @@ def run(ctx):
             if "-" in r.split(","):
                 res.fail("spec", "C16:member-stem-without-bracket", inp, "member %r" % s)
             else:
-                lvreq.append(["ss.check_levels", seq, g1.pstr(pairs), r or "-"]); lvidx.append((ci, s))
+                lvreq.append(["ss.check_levels_noopt", seq, g1.pstr(pairs), r or "-"]); lvidx.append((ci, s))
     # the model's own members must be Grundy too (guards the model against drifting from its theorem)
     for ci, r in model_sets.items():
         tag, (seq, pairs) = inputs[ci]
@@ -165,7 +165,7 @@ def run(ctx):
         tag, (seq, pairs) = inputs[ci]
         inp = {"seq": seq, "pairs": pairs, "family": tag}
         if isinstance(s, tuple):
-            second.append(["ss.check_levels", seq, g1.pstr(pairs), r or "-"]); sidx.append((ci, s[1]))
+            second.append(["ss.check_levels_noopt", seq, g1.pstr(pairs), r or "-"]); sidx.append((ci, s[1]))
             continue
         d = dict(x.split("=") for x in r.split(" "))
         if d["proper"] != "true":
